@@ -92,15 +92,15 @@ func (h *handshake) readMessage(conn net.Conn, timeout time.Duration, chunk []by
 
 	if timeout == 0 {
 		conn.SetReadDeadline(time.Time{})
+	} else {
+		// one deadline for the whole message: a peer that sends a byte just
+		// before every deadline must not keep the reader busy for hours
+		conn.SetReadDeadline(time.Now().Add(timeout))
 	}
 
 	expect := 6
 	for {
 		if len(chunk) < expect {
-			if timeout > 0 {
-				conn.SetReadDeadline(time.Now().Add(timeout))
-			}
-
 			n, err := conn.Read(b[:])
 			if err != nil {
 				return nil, nil, err
